@@ -369,4 +369,131 @@ private def exProg : C05.Program :=
 example : (rebuildWord (engineOfProgram exProg) 0 [100, 105, 102, 102, 105, 99, 117, 108, 116] none true [3, 5]).map
     (fun o => o.map (·.1)) = some exOut := by decide
 
+/-! ## Deepening round: the statement for the model of the algorithm -/
+
+/-- Why mutant 25 of the sweep (exit test of the synchronisation loop written without
+`post_break_iter.is_separation_point()`) is equivalent: for an engine whose runs end at a
+separation point, the loop started by `hyphLoop` (post-break iterator fresh, hence at a separation
+point) computes the same result with and without that conjunct, for every fuel. -/
+theorem sync_post_sep_redundant (eng : Engine) (hl : EngineSep eng) (rbo : Option Nat) (text : List Nat)
+    (fuel : Nat) (st : Sync) (hpost : st.post = ⟨eng.run false rbo text, true⟩) :
+    syncNoPostSep fuel st = sync fuel st :=
+  syncNoPostSep_eq fuel st (by rw [hpost]; exact hl.lastSep false rbo text) (by rw [hpost])
+
+/-- `expectedM` (the allowed positions of all rebuilt words as absolute letter offsets, defined by
+the traversal of the pass) is the list `chk` computes from `findWords` (= `specWords`,
+`discovery_complete`) and `wordPositions` (= `specPositions`, `index_iter_spec`). -/
+theorem expectedM_spec (lhm rhm : Int) (liang : List Nat → List Nat) (l : List Item) :
+    expectedM lhm rhm liang l
+      = expectedPositions l (specWords l)
+          ((specWords l).map (fun w => specPositions lhm rhm w.letters.length (liang w.letters))) := by
+  rw [expectedM_eq_findWords, discovery_complete]
+  congr 2
+  funext w
+  exact index_iter_spec _ _ _ _
+
+/-- **Positions of the whole pass, exactly** (`positions_exact` lifted to the list): the break
+positions of ALL inserted discretionaries of the model's output, as absolute letter offsets, are
+in order exactly the allowed positions of all rebuilt words (`expectedM`) that are not strictly
+inside the tail of an earlier discretionary's span. Every engine that spells, every list, every
+minimums, every ascending Liang source. -/
+theorem positions_exact_list (eng : Engine) (he : EngineOK eng) (lhm rhm : Int) (liang : List Nat → List Nat)
+    (hliang : ∀ s, (liang s).Pairwise (· < ·)) (l : List Item) (out : List (Item × Bool))
+    (h : hyphList eng lhm rhm liang (l.length + 1) l = some out) :
+    (discPositions (out.map (·.2)) (out.map (·.1)) 0).map (·.1)
+      = (expectedM lhm rhm liang l).filter
+          (fun p => !coveredBy (discPositions (out.map (·.2)) (out.map (·.1)) 0) p) :=
+  (hyphList_posOK he lhm rhm liang hliang _ l out 0 h).eq
+
+/-- P1 against the INPUT, under the decidable hypothesis that no rebuilt word deviates: if the
+main lig/kern run of every rebuilt word reproduces its nodes (`unbrokenM = input`; the driver
+evaluates this per run, `ub=1`, and names the shape of each deviation otherwise), deleting the
+inserted discretionaries gives the input back node for node. -/
+theorem hyphenateM_P1_input (eng : Engine) (he : EngineOK eng) (lhm rhm : Int) (liang : List Nat → List Nat)
+    (l : List Item) (out : List (Item × Bool)) (h : hyphList eng lhm rhm liang (l.length + 1) l = some out)
+    (hub : unbrokenM eng lhm rhm liang l = some l) :
+    P1 (out.map (·.2)) (out.map (·.1)) l = true := by
+  obtain ⟨u, hu, hp1, -⟩ := hyphenateM_invariants eng he lhm rhm liang l out h
+  rw [hub] at hu
+  cases hu
+  exact hp1
+
+/-- **The property for the model of the algorithm** (the proved counterpart of
+`C14_full_statement`, with `impl` := `hyphList` over C05's engine): for every lig/kern program
+(C05's quantifier: anything `compile` accepts, loops and redirects included), every hyphen
+minimums, every ascending Liang source and every horizontal list, the pass returns a marked
+list `out` such that
+* P2 holds at every inserted discretionary;
+* for EVERY subset of breaks taken the rendered letters are the input's letters;
+* the discretionaries sit at exactly the allowed positions not swallowed by an earlier
+  discretionary's synchronisation;
+* if no rebuilt word's main run deviates from its nodes (`unbrokenM = input`, decidable), P1
+  holds against the input. The hypothesis cannot be dropped: `example`s below refute P1 at the
+  recorded shapes f, g, i, j. -/
+theorem C14_model_statement (p : C05.Program) (lhm rhm : Int) (liang : List Nat → List Nat)
+    (hliang : ∀ s, (liang s).Pairwise (· < ·)) (l : List Item) :
+    ∃ out : List (Item × Bool),
+      hyphList (engineOfProgram p) lhm rhm liang (l.length + 1) l = some out ∧
+      P2 (out.map (·.2)) (out.map (·.1)) = true ∧
+      (∀ taken : List Bool, taken.length = out.length →
+        render (out.map (·.2)) taken (out.map (·.1)) 0 = lettersL l) ∧
+      (discPositions (out.map (·.2)) (out.map (·.1)) 0).map (·.1)
+        = (expectedM lhm rhm liang l).filter
+            (fun q => !coveredBy (discPositions (out.map (·.2)) (out.map (·.1)) 0) q) ∧
+      (unbrokenM (engineOfProgram p) lhm rhm liang l = some l →
+        P1 (out.map (·.2)) (out.map (·.1)) l = true) := by
+  have he := c05_engine_ok p
+  obtain ⟨o, ho⟩ := hyphenateM_total (engineOfProgram p) he (c05_engine_sep p) lhm rhm liang hliang l
+  simp only [hyphenateM, Option.map_eq_some_iff] at ho
+  obtain ⟨out, hout, -⟩ := ho
+  refine ⟨out, hout, ?_, ?_, ?_, ?_⟩
+  · exact (hyphenateM_invariants _ he lhm rhm liang l out hout).choose_spec.2.2
+  · intro taken hl
+    exact hyphenateM_conserves _ he lhm rhm liang l out taken hout hl
+  · exact positions_exact_list _ he lhm rhm liang hliang l out hout
+  · exact hyphenateM_P1_input _ he lhm rhm liang l out hout
+
+/-! ### The hypothesis `unbrokenM = input` cannot be dropped: the four recorded shapes -/
+
+private def glue0 : Item := .other .glue []
+
+/-- f (known finding C14-f, TeX-compatible and pinned by the repository's tests): `y. → y ,` —
+`ay.` with the break `a-y`: the word is rebuilt with `.` standing in for the right boundary and a
+second `,` ligature appears. -/
+private def pF : C05.Program :=
+  { instrs := [⟨none, 46, .lig 44 .leftNowhere⟩], lbEntry := none, rb := none, entries := [(121, 0)], kerns := [] }
+private def inF : List Item := [glue0, .char 97 0, .char 121 0, .lig 44 0 [46] false false]
+example : unbrokenM (engineOfProgram pF) 1 1 (fun _ => [1]) inF ≠ some inF := by decide
+example : ∃ out, hyphList (engineOfProgram pF) 1 1 (fun _ => [1]) 5 inF = some out ∧
+    P1 (out.map (·.2)) (out.map (·.1)) inF = false := ⟨_, rfl, by decide⟩
+
+/-- g (stated boundary, TeX §903 `found2`): `|c → | - c` then `|- → kern`: the font kern stepped over
+by the search is emitted a second time. -/
+private def pG : C05.Program :=
+  { instrs := [⟨some 0, 45, .kern 7⟩, ⟨none, 99, .lig 45 .bothNowhere⟩], lbEntry := some 0, rb := none,
+    entries := [], kerns := [] }
+private def inG : List Item :=
+  [glue0, .kern 0 7, .lig 45 0 [] true false, .char 99 0, .char 97 0, .char 98 0]
+example : unbrokenM (engineOfProgram pG) 1 1 (fun _ => [2]) inG ≠ some inG := by decide
+
+/-- i (known finding C14-i, NOT TeX-compatible): `.a → . b`: the left context `.` of the word is
+lost and the first letter comes back plain. -/
+private def pI : C05.Program :=
+  { instrs := [⟨none, 97, .lig 98 .leftInserted⟩], lbEntry := none, rb := none, entries := [(46, 0)], kerns := [] }
+private def inI : List Item := [glue0, .char 46 0, .lig 98 0 [97] false false, .char 97 0]
+example : unbrokenM (engineOfProgram pI) 1 1 (fun _ => [1]) inI ≠ some inI := by decide
+
+/-- j (stated boundary, TeX §896/§903 `init_lft = false`): three chained left-boundary rules. -/
+private def pJ : C05.Program :=
+  { instrs := [⟨some 0, 97, .lig 120 .leftNowhere⟩, ⟨none, 120, .lig 45 .rightInserted⟩,
+               ⟨none, 120, .lig 97 .bothInserted⟩],
+    lbEntry := some 0, rb := none, entries := [(45, 2)], kerns := [] }
+private def inJ : List Item :=
+  [glue0, .lig 45 0 [] true false, .lig 97 0 [] false false, .lig 120 0 [97] false false, .char 97 0, .char 98 0]
+example : unbrokenM (engineOfProgram pJ) 1 1 (fun _ => [1]) inJ ≠ some inJ := by decide
+
+/-- Non-vacuity of the hypothesis: `dif-fi-cult`. -/
+example : unbrokenM (engineOfProgram exProg) 2 3 (fun _ => [3, 5]) (glue0 :: exInp) = some (glue0 :: exInp) := by
+  decide
+
 end C14
